@@ -15,7 +15,7 @@
 //!
 //! op:   `rd|sp [b<cap>] <item>… [f<1|2><m|x>]… [q<W|1>] [z<n>] [e<c|i|d><1|2>:<len>]… [m<min>]…`
 //!       item = `s<attr>:<len>` | `l<k>:<len>,<len>…` | `l<k>:-` (endpoint 1; `S` / `L`: endpoint 2) | `u`
-//! out:  `<status> | <event queue: n,n,…|-> | <chunk>;<chunk>…`
+//! out:  `<status> | <event queue: n,n,…@<ms>@<debug>,<info>,<critical>,<N> |-> | <chunk>;<chunk>…`
 //!       chunk = `<size>/<more><suppress><wf>/<subscription id|->/<piece>,…|-/<event>,…|-`
 //!       piece = `S<id>:<enc>:<len>:<ok>` | `W<id>:<enc>:<lens|->:<ok>` | `E<id>:<enc>` |
 //!               `I<id>:<enc>:<len>:<ok>` | `X<id>:<enc>:<code>` | `?`
@@ -411,11 +411,13 @@ fn push_events<C: Crypto>(runner: &Runner<C>, op: &Op) -> String {
     }
     let mut q: Vec<String> = Vec::new();
     events.verif_visit(|n, _| q.push(n.to_string()));
-    if q.is_empty() {
+    if q.is_empty() && op.events.is_empty() {
         "-".into()
     } else {
-        // the events carry the time of the push (a varying-width field of their reports)
-        format!("{}@{}", q.join(","), embassy_time::Instant::now().as_millis())
+        // the events carry the time of the push (a varying-width field of their reports);
+        // third part: bytes in use in the debug / info / critical buffer and the size of each
+        let (hd, hi, hc, n) = events.verif_heads();
+        format!("{}@{}@{},{},{},{}", q.join(","), embassy_time::Instant::now().as_millis(), hd, hi, hc, n)
     }
 }
 
@@ -807,7 +809,10 @@ async fn calibrate<C: Crypto>(runner: &Runner<C>) -> String {
     let o5 = run("rd qW z1 ec1:10").await;
     let kv = enc_of(&o5, 4, 'D').map(|e| e as i64 - 1 - 10).unwrap_or(-1);
     let kt = enc_of(&o5, 4, 'T').map(|e| e as i64).unwrap_or(-1);
-    format!("{} {} {} {} {} {} {}", ks, kw, ke, ki, kx, kv, kt)
+    // KR: what the report of an event is longer than the event in the queue (the queue still holds
+    // exactly the event of `o5`, in its debug buffer)
+    let kr = enc_of(&o5, 4, 'D').map(|e| e as i64 - runner.state.events().verif_heads().0 as i64).unwrap_or(-1);
+    format!("{} {} {} {} {} {} {} {}", ks, kw, ke, ki, kx, kv, kt, kr)
 }
 
 // ---------------------------------------------------------------- generator
